@@ -1054,8 +1054,8 @@ QUICK = [
 
 def thorough_matrix():
     m = []
-    core = ['perm', 'permrev', 'hren', 'hv2', 'rot90', 'rotfar', 'rotgen', 'all', 'all2']
-    more = ['perm#2', 'permh', 'hname', 'hter', 'crlf']
+    core = ['perm', 'permrev', 'hren', 'hv2', 'rotfar', 'rotgen', 'all', 'all2']
+    more = ['perm#2', 'permh', 'hname', 'hter', 'rot90', 'crlf']
     for s in T0:
         for o in OPTSETS:
             if o == 'm3-alt':
